@@ -115,6 +115,8 @@ def runSock (prop : String) (f : List String) (obsS : String) : Verdict :=
     let foreign := (obsS.splitOn ";").any fun o => ((o.splitOn "/").headD "").endsWith "!"
     if foreign then
       ⟨false, obsS, "", some (if buffered then "C07+C13" else "C13", "the sink failed with an error that is not the socket's error (rebuilt: errno lost)"), [kind], false⟩ else
+    if (obsS.splitOn ";").any (·.startsWith "decreased") then
+      ⟨false, obsS, "", some ("C14", "a counter of the sink decreased (send attempts and their sizes only ever add up)"), [kind], false⟩ else
     let obs := obsS.splitOn ";"
     if obs.length ≠ ops.length + 2 && !(obs.any (·.startsWith "stuck")) then badCase else
     let rec go (s : SSt) (ops obs : List String) (mo io : List String) (v : Option Viol)
@@ -292,7 +294,7 @@ def runLock (_prop : String) (_f : List String) (obsS : String) : Verdict :=
   else if obsS == "ok-not-blocked" then ⟨true, "ok", "ok", none, ["lock-contention-not-set-up"], false⟩
   else
     -- a flush that returns while data it should have written is still buffered is a C06 matter as well
-    let p := if (obsS.splitOn "flush").length > 1 then "C12+C06" else "C12"
+    let p := if (obsS.splitOn "flush").length > 1 then "C12+C06+C13" else "C12"
     ⟨true, obsS, obsS, some (p, "lock contention scenario: " ++ obsS), ["lock-contention"], false⟩
 
 end Drv.SockE
